@@ -838,6 +838,23 @@ def premise_residual(ctx, fac, PR, rule="R", mode="exact"):
 # -------------------------------------------------------------------------------------------------
 # E: entry wiring
 
+def value_wiring(ctx, rule="E", sizes=((FIVE, 5), (SIX, 6), (SEVEN, 7))):
+    """hand_rank_value() — the entry point users call, which a type may override — is the first component of
+    hand_rank_value_and_hand() of the same hand (the function the ranking rules analyse)."""
+    rep, pdb = ctx.rep, ctx.pdb
+    for path, n in sizes:
+        h = ctx.hand(path, n)
+
+        def val(path=path, n=n, h=h):
+            k_and, _ = ctx.method(path, "hand_rank_value_and_hand", HR)
+            k_v, sty = ctx.method(path, "hand_rank_value", HR)
+            sm = ctx.summ(k_v, [("r", h)], sty, opaque={k_and})
+            r = sm.ret
+            ok = r[0] == "call" and r[1] == "fn:%s#0" % k_and and r[2][0] is h
+            rep.ob(rule + ".value-is-first-component", short(path), ok, "hand_rank_value() is not the first component of hand_rank_value_and_hand() of the same hand", pdb.where(k_v))
+        ctx.guard(rule + ".value", val)
+
+
 def premise_entry(ctx, rule="E", sizes=((FIVE, 5), (SIX, 6), (SEVEN, 7)), gate_total=False):
     rep, pdb = ctx.rep, ctx.pdb
     for path, n in sizes:
@@ -2706,6 +2723,8 @@ def check_C08(ctx):
         rep.ob("C08.suit-blind", "24 relabellings", sym and not fac["slots_left"] and (fz.found["F"] + fz.found["U"]) > 0 and badp is None,
                "the five-card value depends on suits other than through tests that are invariant under relabelling the four suits%s" % ((": suits %s vs relabelling %s" % (badp[1], badp[2])) if badp else ""), pdb.where(fac["key"]))
     ctx.guard("C08.suit-blind-selection", suit_blind_selection, ctx)
+    # the value users read is that function's value
+    value_wiring(ctx, "E")
 
 
 def suit_blind_selection(ctx):
